@@ -178,7 +178,8 @@ CLAIMED["C05"] = dict(
     "table and no symbol stays on it (C02/C06 theorems); on failure the return-cache context leaves ir.cfg = the "
     "caller's object with the live edges and the reference-cache context materialises every pending referent "
     "(C20 theorems for every body and history); over apply()'s whole loop every symbol referent that is a block is "
-    "attached to a byte interval of the module (symbol_referents_are_part_of_the_module). Oracle: a whole-IR validator written in Lean evaluated on the real "
+    "attached to a byte interval of the module (symbol_referents_are_part_of_the_module) and every symbolic expression "
+    "names symbols of the module (expression_symbols_are_part_of_the_module; premises evaluated on recorded states). Oracle: a whole-IR validator written in Lean evaluated on the real "
     "module after apply() returns and, closure part, after the k-th patch callback raises for every k; gtirb's "
     "protobuf save/load round trip compared by canonical dump. Tie: per-operation correspondence of the Lean IR "
     "model. Partial: well-formedness of the whole output is decided by the oracle, the theorems cover the purge "
